@@ -167,15 +167,100 @@ def run_pipe1(case):
     return res
 
 
-KINDS = {"block": run_block, "rw1": run_rw1, "first": run_first, "pipe": run_pipe, "pipe1": run_pipe1}
+def _ess_at(ell, beta):
+    w = np.exp(beta * (ell - ell.max()))
+    return float(w.sum() ** 2 / np.sum(w * w))
+
+
+def run_edge(case):
+    """Boundary-value family: warm-up pools whose ESS crosses the target at 1-delta (and at beta_prev+delta),
+    for delta around BETA_TOLERANCE, in ESS mode and in volume-variation mode with a loose target."""
+    res = Res()
+    n, W, ratio = case["n"], case["W"], case["ratio"]
+    N = n * W
+    q = (np.arange(N) + 0.5) / N
+    from scipy.stats import norm
+    ell0 = -0.5 * norm.ppf(q) ** 2 * (1.0 + 0.3 * np.cos(7 * q))
+    target = ratio * n
+    if not (_ess_at(ell0, 0.0) > target > _ess_at(ell0, 50.0)):
+        return res
+    lo, hi = 0.0, 50.0
+    for _ in range(200):
+        mid = 0.5 * (lo + hi)
+        if _ess_at(ell0, mid) >= target:
+            lo = mid
+        else:
+            hi = mid
+    bstar = lo
+    perm = np.argsort((np.arange(N) * 0.6180339887) % 1.0)
+    for delta in case["deltas"]:
+        s = bstar / (1.0 - delta) if delta < 1 else bstar
+        ell = (ell0 * s)[perm]
+        for vv in (None, 1e6, 0.5):
+            sizes = [n] * W
+            one_transition(res, case, sizes, [0.0] * W, [0.0] * W, [float(v) for v in ell], n, ratio, vv, d=1)
+    res.states += len(case["deltas"])
+    res.sample({"n": n, "warmup_batches": W, "ess_ratio": ratio, "crossing_at": [1 - d for d in case["deltas"]]}, cap=1)
+    return res
+
+
+BATCH = {
+    "A": lambda n, k: -4.0 * ((np.arange(n) + 0.5) / n) ** 2 * (1 + 0.1 * k),
+    "S": lambda n, k: np.where(np.arange(n) == (k % n), 12.0 + k, -6.0),
+    "F": lambda n, k: np.zeros(n),
+    "H": lambda n, k: np.full(n, 3.0) - 0.01 * np.arange(n),
+}
+
+
+def run_stateful(case):
+    """ONE Reweighter instance driven through every sequence of batch types (explicit-state over histories with persistent
+    component state): reweight -> oracle -> commit a scripted batch -> reweight ..."""
+    from tempest.state_manager import StateManager
+    from tempest.steps.reweight import Reweighter
+
+    res = Res()
+    n, ratio, vv, d = case["n"], case["ratio"], case["vv"], 2
+    seqs = [tuple(case["only"])] if case.get("only") else [s for s in itertools.product("ASFH", repeat=case["depth"]) if s[0] == case["first"]]
+    for seq in seqs:
+        st = StateManager(d)
+        st.update_current({"iter": 0, "beta": 0.0, "logz": 0.0, "calls": 0})
+        rw = Reweighter(st, None, n_particles=n, ess_ratio=ratio, volume_variation=vv)
+        beta_prev = None
+        cc = dict(case, only=list(seq))
+        for k, b in enumerate(seq + ("A",)):
+            try:
+                w = rw.run()
+            except Exception as e:
+                res.violate(f"stateful:raises:{type(e).__name__}", f"Reweighter.run raised {e!r} after batches {seq[:k]}", cc)
+                break
+            res.evals += 1
+            res.trans += 1
+            errs = reweight_errors(st, n, ratio, vv, beta_prev, w, first=(k == 0))
+            for key, msg in errs:
+                res.violate(f"stateful:{key}", msg + f" [one Reweighter, batches so far {seq[:k]}, n={n}, ratio={ratio}, vv={vv}]", cc)
+            if errs:
+                break
+            beta_prev = float(st._current["beta"])
+            if beta_prev >= 1.0 or k == len(seq):
+                break
+            U = _u_rows(n * (k + 1), d)[n * k:]
+            st.update_current({"u": U, "x": 20 * U - 10, "logl": np.asarray(BATCH[b](n, k), dtype=float)})
+            st.commit_current_to_history()
+        res.states += 1
+        res.outcome(("stateful", n, ratio, vv, seq, beta_prev), nontrivial=bool(beta_prev and beta_prev > 0))
+    res.traces += 1
+    return res
+
+
+KINDS = {"edge": run_edge, "stateful": run_stateful, "block": run_block, "rw1": run_rw1, "first": run_first, "pipe": run_pipe, "pipe1": run_pipe1}
 
 FACTORS = [
     ("sample", ["tpcn", "rwm"]),
     ("resample", ["mult", "syst"]),
     ("clustering", [False, True]),
-    ("vv", [None, 0.1, 0.5, 2.0]),
+    ("vv", [None, 0.02, 0.05, 0.5, 2.0]),
     ("ess_ratio", [1.0, 1.5, 2.0, 3.0]),
-    ("n_particles", [12, 24, 32]),
+    ("n_particles", [12, 24]),
     ("target", ["gauss", "bimodal"]),
 ]
 
@@ -198,6 +283,12 @@ def plan(ctx):
     ctx.bounds.update({"synthetic": {"T": [1, 2, 3] if th else [1, 2], "batch_sizes": [2, 3, 4], "betas_sorted_from": BETAS, "logZ": LOGZ, "logL": LOGL,
                                      "n_particles x ess_ratio": PAIRS, "modes(vv target or None=ESS)": MODES, "blocks": len(blocks)}})
     ctx.explore("synthetic-transitions", blocks, chunksize=2)
+    deltas = [1e-6, 1e-5, 3e-5, 9e-5, 1.1e-4, 5e-4, 1e-2]
+    edge = [{"kind": "edge", "n": n, "W": W, "ratio": r, "deltas": deltas} for n in (16, 64) for W in (2, 3, 5) for r in (1.0, 1.5, 2.0) if r < W]
+    ctx.explore("beta-tolerance-edges", edge)
+    stf = [{"kind": "stateful", "n": n, "ratio": r, "vv": vv, "depth": 5 if th else 4, "first": f}
+           for (n, r) in ((8, 1.0), (16, 2.0), (64, 2.0)) for vv in (None, 0.02, 0.05, 0.5) for f in "ASFH"]
+    ctx.explore("stateful-reweighter-sequences", stf)
     strength = 3 if th else 2
     rows = lattice.covering_array(FACTORS, strength=strength, seed=ctx.seed)
     cov, tot = lattice.count_covered(rows, FACTORS, strength)
@@ -205,7 +296,7 @@ def plan(ctx):
     for r in rows:
         cfg = dict(r)
         cfg["n_total"] = 4 * cfg["n_particles"]
-        cases.append({"kind": "pipe", "cfg": cfg, "base": ctx.seed, "alphabet": ["a", "b", "c"] if th else ["a", "b"], "max_dev": 2 if th else 1, "max_runs": 120 if th else 16})
+        cases.append({"kind": "pipe", "cfg": cfg, "base": ctx.seed, "alphabet": ["a", "b", "c"] if th else ["a", "b"], "max_dev": 2 if th else 1, "max_runs": 120 if th else 8})
     ctx.bounds.update({"reachable": {"configs": len(rows), "covering_strength": strength, "tuples_covered": f"{cov}/{tot}", "max_deviations": 2 if th else 1}})
     agg = ctx.explore("reachable-schedules", cases)
     if agg.extra.get("run_cap_hit"):
